@@ -1037,6 +1037,8 @@ def zbool(x):
         return x.z != 0
     if isinstance(x, SStr):
         return z3.BoolVal(len(x) > 0)
+    if type(x).__name__ == 'SBV':
+        return x.nonzero()
     return z3.BoolVal(bool(x))
 
 
@@ -2303,6 +2305,10 @@ class RT:
             return fork(x.z)
         if isinstance(x, SInt):
             return fork(x.z != 0)
+        if isinstance(x, SBV):
+            return fork(x.nonzero())
+        if isinstance(x, SBytes):
+            return len(x) > 0
         if isinstance(x, (LazyDec, LazyBigInt)):
             return RT.truth(x.force() if isinstance(x, LazyBigInt) else True)
         return bool(x)
@@ -2313,6 +2319,8 @@ class RT:
             return fork(x.z, prefer=False)
         if isinstance(x, SInt):
             return fork(x.z != 0, prefer=False)
+        if isinstance(x, SBV):
+            return fork(x.nonzero(), prefer=False)
         return RT.truth(x)
 
     @staticmethod
@@ -2328,6 +2336,8 @@ class RT:
             return SBool(z3.Not(x.z))
         if isinstance(x, SInt):
             return SBool(x.z == 0)
+        if isinstance(x, SBV):
+            return SBool(x.z == 0)
         if isinstance(x, (LazyDec, LazyBigInt)):
             return RT.not_(force(x))
         return not x
@@ -2335,6 +2345,8 @@ class RT:
     @staticmethod
     def ifexp(c, fa, fb):
         """x if c else y  with if-conversion when both arms are cheap symbolic ints / equal-length strings"""
+        if isinstance(c, SBV):
+            c = SBool(c.nonzero())
         if not isinstance(c, (SBool, SInt)):
             return fa() if RT.truth(c) else fb()
         cz = zbool(c)
@@ -2484,6 +2496,14 @@ class RT:
         if isinstance(l, (str, SStr)) and isinstance(r, (str, SStr)):
             l = SStr.of(l)
             return getattr(l, '__%s__' % _OPS[op])(r)
+        if isinstance(l, SBV) or isinstance(r, SBV):
+            return bv_cmp(op, l, r)
+        if isinstance(l, SBytes) or isinstance(r, SBytes):
+            if op == 'Eq':
+                return l == r if isinstance(l, SBytes) else r == l
+            if op == 'NotEq':
+                return l != r if isinstance(l, SBytes) else r != l
+            raise Unsupported('ordering of symbolic bytes')
         if isinstance(l, (int, SInt, SBool)) and isinstance(r, (int, SInt, SBool)):
             if not isinstance(l, SInt):
                 l = SInt(zint(l))
@@ -2513,8 +2533,18 @@ class RT:
         r = force(r)
         if isinstance(l, float) or isinstance(r, float) or op == 'Div':
             raise Unsupported('float arithmetic with symbolic')
-        if isinstance(l, SBV) or isinstance(r, SBV) or op in ('BitAnd', 'BitOr', 'BitXor', 'LShift', 'RShift'):
+        if isinstance(l, SBytes) or isinstance(r, SBytes):
+            if op == 'Add':
+                return SBytes.of(l) + SBytes.of(r)
+            if op == 'Mult':
+                return l * r if isinstance(l, SBytes) else r * l
+            raise TypeError('unsupported operand type(s) for %s' % op)
+        if op in ('BitAnd', 'BitOr', 'BitXor', 'LShift', 'RShift'):
             return bv_binop(op, l, r)
+        if isinstance(l, SBV):
+            l = l.to_int()      # arithmetic leaves the bit-vector world (Python ints do not wrap)
+        if isinstance(r, SBV):
+            r = r.to_int()
         if isinstance(l, (str, SStr)) or isinstance(r, (str, SStr)):
             if op == 'Add' and isinstance(l, (str, SStr)) and isinstance(r, (str, SStr)):
                 return SStr.of(l) + r
@@ -2690,6 +2720,12 @@ def _merge(cz, x, y):
     if isinstance(x, (str, SStr)) and isinstance(y, (str, SStr)) and len(x) == len(y):
         xc, yc = SStr.of(x).chars, SStr.of(y).chars
         return mk([p if (isinstance(p, int) and isinstance(q, int) and p == q) else z3.If(cz, p, q) for p, q in zip(xc, yc)])
+    if (isinstance(x, SBV) or isinstance(y, SBV)) and isinstance(x, (SBV, int)) and isinstance(y, (SBV, int)) and not isinstance(x, bool) and not isinstance(y, bool):
+        try:
+            (a, ba), (b, bb) = _tobv(x), _tobv(y)
+        except Unsupported:
+            return _NOMERGE
+        return SBV(z3.If(cz, a, b), max(ba, bb))
     if type(x) is type(y) and not isinstance(x, SYM_TYPES):
         try:
             if x == y:
@@ -3604,6 +3640,10 @@ def model_val(model, v):
         return model.eval(v.z, model_completion=True).as_long()
     if isinstance(v, SBool):
         return z3.is_true(model.eval(v.z, model_completion=True))
+    if isinstance(v, SBV):
+        return model.eval(v.z, model_completion=True).as_long()
+    if isinstance(v, SBytes):
+        return bytes(x if isinstance(x, int) else model.eval(x, model_completion=True).as_long() for x in v.items)
     if isinstance(v, (SDate, SDecimal)):
         return v.concrete(model)
     if isinstance(v, (LazyDec, LazyBigInt)):
@@ -3620,55 +3660,188 @@ def model_val(model, v):
     return v
 
 
-class SBV:
-    """bit-vector twin of SInt (only for bitcoin's bech32 polymod / b32decode)"""
+BVW = 64
 
-    def __init__(self, z):
-        self.z = z
+
+class SBV:
+    """non-negative integer kept as a bit vector: result of & | ^ << >> on symbolic ints (bech32 polymod, b32decode).
+    `bits` is a static upper bound of the significant bits, so that nothing is ever truncated (Python ints do not wrap)."""
+
+    def __init__(self, z, bits):
+        if bits > BVW:
+            raise Unsupported('bit-vector value wider than %d bits' % BVW)
+        self.z, self.bits = z, bits
+
+    def nonzero(self):
+        return self.z != 0
+
+    def to_int(self):
+        return SInt(z3.BV2Int(self.z, False))
+
+
+_I2B = {}
+
+
+def _int_term_to_bv(e):
+    """structural translation of an Int term made of numerals and if-then-else (table look-ups) into a bit vector"""
+    k = e.get_id()
+    r = _I2B.get(k)
+    if r is not None:
+        return r[1]
+    if z3.is_int_value(e):
+        v = e.as_long()
+        out = (z3.BitVecVal(v, BVW), v.bit_length()) if 0 <= v < 2 ** (BVW - 1) else None
+    elif z3.is_app_of(e, z3.Z3_OP_ITE):
+        c, a, b = e.children()
+        ta, tb = _int_term_to_bv(a), _int_term_to_bv(b)
+        out = (z3.If(c, ta[0], tb[0]), max(ta[1], tb[1])) if ta is not None and tb is not None else None
+    else:
+        out = None
+    _I2B[k] = (e, out)
+    return out
+
+
+def _tobv(x):
+    if isinstance(x, SBV):
+        return x.z, x.bits
+    if isinstance(x, bool):
+        return z3.BitVecVal(int(x), BVW), 1
+    if isinstance(x, int):
+        if x < 0 or x >= 2 ** (BVW - 1):
+            raise Unsupported('bit operation on negative / wide constant')
+        return z3.BitVecVal(x, BVW), x.bit_length()
+    if isinstance(x, SBool):
+        return z3.If(x.z, z3.BitVecVal(1, BVW), z3.BitVecVal(0, BVW)), 1
+    if isinstance(x, SInt):
+        t = _int_term_to_bv(z3.simplify(x.z))
+        if t is not None:
+            return t
+        # range obligation: the value must fit (checked by the solver, forks if it may not)
+        if not fork(z3.And(x.z >= 0, x.z < 2 ** 40)):
+            raise Unsupported('bit operation on out-of-range symbolic int')
+        return z3.Int2BV(x.z, BVW), 40
+    raise Unsupported('bit operation on %s' % type(x).__name__)
 
 
 def bv_binop(op, l, r):
-    W = 64
-
-    def tobv(x):
-        if isinstance(x, SBV):
-            return x.z
-        if isinstance(x, bool):
-            return z3.BitVecVal(int(x), W)
-        if isinstance(x, int):
-            if x < 0 or x >= 2 ** (W - 1):
-                raise Unsupported('bit operation on negative / wide constant')
-            return z3.BitVecVal(x, W)
-        if isinstance(x, SInt):
-            # range obligation: the value must fit (checked by the solver, forks if it may not)
-            if not fork(z3.And(x.z >= 0, x.z < 2 ** 40)):
-                raise Unsupported('bit operation on out-of-range symbolic int')
-            return z3.Int2BV(x.z, W)
-        raise Unsupported('bit operation on %s' % type(x).__name__)
-    a, b = tobv(l), tobv(r)
+    if op in ('LShift', 'RShift'):
+        if isinstance(r, SYM_TYPES) or isinstance(r, bool) or not isinstance(r, int) or r < 0:
+            raise Unsupported('shift by a symbolic amount')
+        a, ba = _tobv(l)
+        if op == 'LShift':
+            return SBV(a << r, ba + r)
+        return SBV(z3.LShR(a, r), max(ba - r, 0))
+    (a, ba), (b, bb) = _tobv(l), _tobv(r)
     if op == 'BitAnd':
-        z = a & b
-    elif op == 'BitOr':
-        z = a | b
-    elif op == 'BitXor':
-        z = a ^ b
-    elif op == 'LShift':
-        z = a << b
-    elif op == 'RShift':
-        z = z3.LShR(a, b)
-    elif op == 'Add':
-        z = a + b
-    elif op == 'Sub':
-        z = a - b
-    elif op == 'Mult':
-        z = a * b
-    elif op == 'Mod':
-        z = z3.URem(a, b)
-    else:
-        raise Unsupported('bv op ' + op)
-    # results go back to the integer world so that comparisons etc. keep working
-    return SInt(z3.BV2Int(z, False))
+        return SBV(a & b, min(ba, bb))
+    if op == 'BitOr':
+        return SBV(a | b, max(ba, bb))
+    if op == 'BitXor':
+        return SBV(a ^ b, max(ba, bb))
+    raise Unsupported('bv op ' + op)
 
 
-SYM_TYPES = (SStr, SInt, SBool, LazyDec, LazyBigInt, SDate, LazySel, SBV, SDecimal)
+_BVCMP = {'Eq': lambda a, b: a == b, 'NotEq': lambda a, b: a != b, 'Lt': z3.ULT, 'LtE': z3.ULE, 'Gt': z3.UGT, 'GtE': z3.UGE}
+
+
+def bv_cmp(op, l, r):
+    """comparison with at least one SBV operand (values are non-negative)"""
+    flip = {'Lt': 'Gt', 'LtE': 'GtE', 'Gt': 'Lt', 'GtE': 'LtE'}
+    if not isinstance(l, SBV):
+        l, r, op = r, l, flip.get(op, op)
+    if isinstance(r, int) and not isinstance(r, bool) and (r < 0 or r >= 2 ** (BVW - 1)):
+        neg = r < 0
+        return {'Eq': False, 'NotEq': True, 'Lt': not neg, 'LtE': not neg, 'Gt': neg, 'GtE': neg}[op]
+    if isinstance(r, SInt) and _int_term_to_bv(z3.simplify(r.z)) is None:
+        return getattr(l.to_int(), '__%s__' % _OPS[op])(r)
+    if not isinstance(r, (int, SInt, SBool, SBV)):
+        if op == 'Eq':
+            return False
+        if op == 'NotEq':
+            return True
+        raise TypeError('unorderable types')
+    b, _ = _tobv(r)
+    return SBool(_BVCMP[op](l.z, b))
+
+
+class SBytes:
+    """bytes value with symbolic elements (struct.pack('B', x) and concatenations): only what the library uses"""
+
+    def __init__(self, items):
+        self.items = list(items)       # ints or z3 Int terms
+
+    @staticmethod
+    def of(x):
+        if isinstance(x, SBytes):
+            return x
+        if isinstance(x, (bytes, bytearray)):
+            return SBytes(list(x))
+        raise TypeError("can't concat %s to bytes" % type(x).__name__)
+
+    def __len__(self):
+        return len(self.items)
+
+    def __add__(self, o):
+        return SBytes(self.items + SBytes.of(o).items)
+
+    def __radd__(self, o):
+        return SBytes(SBytes.of(o).items + self.items)
+
+    def __mul__(self, n):
+        if not isinstance(n, int):
+            raise Unsupported('bytes * symbolic int')
+        return SBytes(self.items * n)
+
+    __rmul__ = __mul__
+
+    def __getitem__(self, i):
+        if isinstance(i, slice):
+            return SBytes(self.items[i])
+        if isinstance(i, SInt):
+            raise Unsupported('symbolic index into bytes')
+        v = self.items[i]
+        return v if isinstance(v, int) else SInt(v)
+
+    def _eqz(self, o):
+        o = SBytes.of(o)
+        if len(o) != len(self):
+            return z3.BoolVal(False)
+        return z3.And([z3.BoolVal(a == b) if isinstance(a, int) and isinstance(b, int) else a == b for a, b in zip(self.items, o.items)] or [z3.BoolVal(True)])
+
+    def __eq__(self, o):
+        if not isinstance(o, (SBytes, bytes, bytearray)):
+            return False
+        return SBool(self._eqz(o))
+
+    def __ne__(self, o):
+        if not isinstance(o, (SBytes, bytes, bytearray)):
+            return True
+        return SBool(z3.Not(self._eqz(o)))
+
+    __hash__ = None
+
+
+def _m_struct_pack(fmt, *vals):
+    if not any(isinstance(v, SYM_TYPES) for v in vals):
+        import struct
+        return struct.pack(fmt, *vals)
+    if fmt != 'B' or len(vals) != 1:
+        raise Unsupported('struct.pack(%r) with symbolic argument' % (fmt,))
+    v = vals[0]
+    if isinstance(v, SBV):
+        if v.bits > 8 and not fork(z3.ULE(v.z, 255)):
+            import struct
+            raise struct.error('ubyte format requires 0 <= number <= 255')
+        return SBytes([z3.BV2Int(v.z, False)])
+    if isinstance(v, SInt):
+        if not fork(z3.And(v.z >= 0, v.z <= 255)):
+            import struct
+            raise struct.error('ubyte format requires 0 <= number <= 255')
+        return SBytes([v.z])
+    raise Unsupported('struct.pack of %s' % type(v).__name__)
+
+
+SYM_TYPES = (SStr, SInt, SBool, LazyDec, LazyBigInt, SDate, LazySel, SBV, SDecimal, SBytes)
 _FUNC_MODELS[_decimal.Decimal] = SDecimal.of_text
+import struct as _struct
+_FUNC_MODELS[_struct.pack] = _m_struct_pack
